@@ -156,7 +156,7 @@ fn stable_sort_by<T: Clone>(items: &[(Option<V>, T)]) -> Result<Vec<T>, Taint> {
 
 fn as_count(v: &Option<V>) -> Option<usize> {
     match v {
-        Some(V::Num(Num::Int(i))) if *i >= 0 && *i <= (1i128 << 40) => Some(*i as usize),
+        Some(V::Num(Num::Int(i))) if *i >= 0 => Some((*i).min(usize::MAX as i128) as usize),
         _ => None,
     }
 }
@@ -1161,7 +1161,7 @@ pub fn agrees(model: &V, got: &V, unordered_records: bool) -> bool {
                 }
             } else if let Some(t) = m.strip_prefix(JSON_MARK) {
                 match (json::parse_one(t.as_bytes()), json::parse_one(g.as_bytes())) {
-                    (Ok(x), Ok(y)) => x == y && !g.contains('\n') && !g.contains('\r'),
+                    (Ok(x), Ok(y)) => (if unordered_records { x.eq_unordered(&y) } else { x == y }) && !g.contains('\n') && !g.contains('\r'),
                     _ => false,
                 }
             } else {
@@ -1211,5 +1211,44 @@ pub fn show_opt(v: &Option<V>) -> String {
     match v {
         None => "nothing".into(),
         Some(v) => json::to_text(v).replace("\\u0001", "").replace("\\u0002", ""),
+    }
+}
+
+/// The known printer defect: a character outside the BMP written as `\\u` + 5 or 6 hex digits.
+/// Returns the text with every such sequence replaced by the character it was meant to be.
+pub fn undo_long_escapes(text: &str) -> Option<String> {
+    let b: Vec<char> = text.chars().collect();
+    let mut out = String::new();
+    let mut i = 0;
+    let mut changed = false;
+    while i < b.len() {
+        if b[i] == '\\' && i + 1 < b.len() && b[i + 1] == '\\' {
+            out.push_str("\\\\");
+            i += 2;
+            continue;
+        }
+        if b[i] == '\\' && i + 1 < b.len() && b[i + 1] == 'u' {
+            let hex: String = b[i + 2..].iter().take(6).take_while(|c| c.is_ascii_hexdigit()).collect();
+            for n in [6usize, 5] {
+                if hex.len() >= n {
+                    if let Some(c) = u32::from_str_radix(&hex[..n], 16).ok().filter(|v| *v >= 0x10000).and_then(char::from_u32) {
+                        out.push(c);
+                        i += 2 + n;
+                        changed = true;
+                        break;
+                    }
+                }
+            }
+            if changed && out.chars().last().map(|c| c as u32 >= 0x10000).unwrap_or(false) && (i >= b.len() || b[i - 1] != 'u') {
+                continue;
+            }
+        }
+        out.push(b[i]);
+        i += 1;
+    }
+    if changed {
+        Some(out)
+    } else {
+        None
     }
 }
